@@ -99,8 +99,8 @@ theorem litMul_some {neg : Bool} {n : Nat} {k : IntTy} {ty : Ty} {other : Option
     · simp at h
 
 mutual
-theorem shapeE : (e : Expr) → ∀ (benv : BEnv) (t : VTy) (bs : List Bool) (p : P) (benv' : BEnv),
-    bitExpr benv e = some (t, bs, p, benv') → shape benv' = shape benv
+theorem shapeE (call : CallFn) : (e : Expr) → ∀ (benv : BEnv) (t : VTy) (bs : List Bool) (p : P) (benv' : BEnv),
+    bitExpr call benv e = some (t, bs, p, benv') → shape benv' = shape benv
   | .bool b, benv, t, bs, p, benv', h => by
     simp only [bitExpr, Option.some.injEq, Prod.mk.injEq] at h; obtain ⟨_, _, _, rfl⟩ := h; rfl
   | .int n k, benv, t, bs, p, benv', h => by
@@ -121,7 +121,7 @@ theorem shapeE : (e : Expr) → ∀ (benv : BEnv) (t : VTy) (bs : List Bool) (p 
         split at h
         · rename_i b p1 env1 ha
           simp only [Option.some.injEq, Prod.mk.injEq] at h; obtain ⟨_, _, _, rfl⟩ := h
-          exact shapeE a _ _ _ _ _ ha
+          exact shapeE call a _ _ _ _ _ ha
         · simp at h
       all_goals (simp at h)
     | neg =>
@@ -132,7 +132,7 @@ theorem shapeE : (e : Expr) → ∀ (benv : BEnv) (t : VTy) (bs : List Bool) (p 
           · rename_i k' bs' p1 env1 ha
             split at h
             · simp only [Option.some.injEq, Prod.mk.injEq] at h; obtain ⟨_, _, _, rfl⟩ := h
-              exact shapeE a _ _ _ _ _ ha
+              exact shapeE call a _ _ _ _ _ ha
             · simp at h
           · simp at h
         · simp at h
@@ -144,7 +144,7 @@ theorem shapeE : (e : Expr) → ∀ (benv : BEnv) (t : VTy) (bs : List Bool) (p 
       · rename_i ta x p1 env1 ha
         split at h
         · simp only [Option.some.injEq, Prod.mk.injEq] at h; obtain ⟨_, _, _, rfl⟩ := h
-          exact shapeE a _ _ _ _ _ ha
+          exact shapeE call a _ _ _ _ _ ha
         · simp at h
       · simp at h
     · simp at h
@@ -156,9 +156,9 @@ theorem shapeE : (e : Expr) → ∀ (benv : BEnv) (t : VTy) (bs : List Bool) (p 
       · rename_i tt tbits pt envT tf fbits pf envF hT hF
         split at h
         · simp only [Option.some.injEq, Prod.mk.injEq] at h; obtain ⟨_, _, _, rfl⟩ := h
-          have h1 := shapeE c _ _ _ _ _ hc
-          have h2 := shapeE tb _ _ _ _ _ hT
-          have h3 := shapeE fb _ _ _ _ _ hF
+          have h1 := shapeE call c _ _ _ _ _ hc
+          have h2 := shapeE call tb _ _ _ _ _ hT
+          have h3 := shapeE call fb _ _ _ _ _ hF
           rw [shape_muxEnv _ _ _ (by rw [h2, h3]), h2, h1]
         · simp at h
       · simp at h
@@ -168,7 +168,7 @@ theorem shapeE : (e : Expr) → ∀ (benv : BEnv) (t : VTy) (bs : List Bool) (p 
     split at h
     · rename_i t' bs' p' env1 hs
       simp only [Option.some.injEq, Prod.mk.injEq] at h; obtain ⟨_, _, _, rfl⟩ := h
-      obtain ⟨pre, hp⟩ := shapeSS ss _ _ _ _ _ hs
+      obtain ⟨pre, hp⟩ := shapeSS call ss _ _ _ _ _ hs
       exact shape_restoreB _ _ pre hp
     · simp at h
   | .bin op ty a b, benv, t, bs, p, benv', h => by
@@ -180,8 +180,8 @@ theorem shapeE : (e : Expr) → ∀ (benv : BEnv) (t : VTy) (bs : List Bool) (p 
         split at h
         · rename_i y p2 env2 hb
           simp only [Option.some.injEq, Prod.mk.injEq] at h; obtain ⟨_, _, _, rfl⟩ := h
-          have h1 := shapeE a _ _ _ _ _ ha
-          have h2 := shapeE b _ _ _ _ _ hb
+          have h1 := shapeE call a _ _ _ _ _ ha
+          have h2 := shapeE call b _ _ _ _ _ hb
           rw [shape_muxEnv _ _ _ h2, h2, h1]
         · simp at h
       · simp at h
@@ -192,8 +192,8 @@ theorem shapeE : (e : Expr) → ∀ (benv : BEnv) (t : VTy) (bs : List Bool) (p 
         split at h
         · rename_i y p2 env2 hb
           simp only [Option.some.injEq, Prod.mk.injEq] at h; obtain ⟨_, _, _, rfl⟩ := h
-          have h1 := shapeE a _ _ _ _ _ ha
-          have h2 := shapeE b _ _ _ _ _ hb
+          have h1 := shapeE call a _ _ _ _ _ ha
+          have h2 := shapeE call b _ _ _ _ _ hb
           rw [shape_muxEnv _ _ _ h2.symm, h1]
         · simp at h
       · simp at h
@@ -206,7 +206,7 @@ theorem shapeE : (e : Expr) → ∀ (benv : BEnv) (t : VTy) (bs : List Bool) (p 
           · rename_i y p2 env2 hb
             split at h
             · simp only [Option.some.injEq, Prod.mk.injEq] at h; obtain ⟨_, _, _, rfl⟩ := h
-              rw [shapeE b _ _ _ _ _ hb, shapeE a _ _ _ _ _ ha]
+              rw [shapeE call b _ _ _ _ _ hb, shapeE call a _ _ _ _ _ ha]
             · simp at h
           · simp at h
         · simp at h
@@ -220,7 +220,7 @@ theorem shapeE : (e : Expr) → ∀ (benv : BEnv) (t : VTy) (bs : List Bool) (p 
           · rename_i y p2 env2 hb
             split at h
             · simp only [Option.some.injEq, Prod.mk.injEq] at h; obtain ⟨_, _, _, rfl⟩ := h
-              rw [shapeE b _ _ _ _ _ hb, shapeE a _ _ _ _ _ ha]
+              rw [shapeE call b _ _ _ _ _ hb, shapeE call a _ _ _ _ _ ha]
             · simp at h
           · simp at h
         · simp at h
@@ -229,9 +229,9 @@ theorem shapeE : (e : Expr) → ∀ (benv : BEnv) (t : VTy) (bs : List Bool) (p 
       simp only [bitExpr, if_true] at h
       split at h
       · obtain ⟨_, _, y, p2, ho, _⟩ := litMul_some h
-        exact shapeE b _ _ _ _ _ ho
+        exact shapeE call b _ _ _ _ _ ho
       · obtain ⟨_, _, y, p2, ho, _⟩ := litMul_some h
-        exact shapeE a _ _ _ _ _ ho
+        exact shapeE call a _ _ _ _ _ ho
       · split at h
         · simp at h
         · split at h
@@ -241,7 +241,7 @@ theorem shapeE : (e : Expr) → ∀ (benv : BEnv) (t : VTy) (bs : List Bool) (p 
               split at h
               · split at h
                 · simp only [Option.some.injEq, Prod.mk.injEq] at h; obtain ⟨_, _, _, rfl⟩ := h
-                  rw [shapeE b _ _ _ _ _ hb, shapeE a _ _ _ _ _ ha]
+                  rw [shapeE call b _ _ _ _ _ hb, shapeE call a _ _ _ _ _ ha]
                 · simp at h
               · simp at h
             · simp at h
@@ -260,7 +260,7 @@ theorem shapeE : (e : Expr) → ∀ (benv : BEnv) (t : VTy) (bs : List Bool) (p 
             split at h
             · split at h
               · simp only [Option.some.injEq, Prod.mk.injEq] at h; obtain ⟨_, _, _, rfl⟩ := h
-                rw [shapeE b _ _ _ _ _ hb, shapeE a _ _ _ _ _ ha]
+                rw [shapeE call b _ _ _ _ _ hb, shapeE call a _ _ _ _ _ ha]
               · simp at h
             · simp at h
           · simp at h
@@ -285,13 +285,35 @@ theorem shapeE : (e : Expr) → ∀ (benv : BEnv) (t : VTy) (bs : List Bool) (p 
       · split at h
         · rename_i hp t' bs' pa envF ha
           simp only [Option.some.injEq, Prod.mk.injEq] at h; obtain ⟨_, _, _, rfl⟩ := h
-          rw [shapeArms arms env1 ts sb _ _ ha rfl, shapeE scrut _ _ _ _ _ hs]
+          rw [shapeArms call arms env1 ts sb _ _ ha rfl, shapeE call scrut _ _ _ _ _ hs]
         · simp at h
       · simp at h
     · simp at h
-  | .call _ _, _, _, _, _, _, h => by simp [bitExpr] at h
-theorem shapeArms : (arms : Arms) → ∀ (benv1 : BEnv) (ts : STy) (sb : List Bool) (st st' : ArmSt),
-    bitArms benv1 ts sb arms st = some st' → shape st.2.2.2 = shape benv1 → shape st'.2.2.2 = shape benv1
+  | .call fn args, benv, t, bs, p, benv', h => by
+    simp only [bitExpr] at h
+    split at h
+    · rename_i vs pargs env1 hl
+      split at h
+      · simp only [Option.some.injEq, Prod.mk.injEq] at h; obtain ⟨_, _, _, rfl⟩ := h
+        exact shapeL call args _ _ _ _ hl
+      · simp at h
+    · simp at h
+theorem shapeL (call : CallFn) : (es : ExprList) → ∀ (benv : BEnv) (vs : List (STy × List Bool)) (p : P) (benv' : BEnv),
+    bitList call benv es = some (vs, p, benv') → shape benv' = shape benv
+  | .nil, benv, vs, p, benv', h => by
+    simp only [bitList, Option.some.injEq, Prod.mk.injEq] at h; obtain ⟨_, _, rfl⟩ := h; rfl
+  | .cons e rest, benv, vs, p, benv', h => by
+    simp only [bitList] at h
+    split at h
+    · rename_i t bs p1 env1 he
+      split at h
+      · rename_i vs2 p2 env2 hr
+        simp only [Option.some.injEq, Prod.mk.injEq] at h; obtain ⟨_, _, rfl⟩ := h
+        rw [shapeL call rest _ _ _ _ hr, shapeE call e _ _ _ _ _ he]
+      · simp at h
+    · simp at h
+theorem shapeArms (call : CallFn) : (arms : Arms) → ∀ (benv1 : BEnv) (ts : STy) (sb : List Bool) (st st' : ArmSt),
+    bitArms call benv1 ts sb arms st = some st' → shape st.2.2.2 = shape benv1 → shape st'.2.2.2 = shape benv1
   | .nil, benv1, ts, sb, st, st', h, hs => by
     simp only [bitArms, Option.some.injEq] at h; subst h; exact hs
   | .cons p e rest, benv1, ts, sb, (hasPrev, ret, pacc, envAcc), st', h, hs => by
@@ -302,7 +324,7 @@ theorem shapeArms : (arms : Arms) → ∀ (benv1 : BEnv) (ts : STy) (sb : List B
       split at h
       · simp at h
       · rename_i te be pe enve he
-        have hse := shapeE e _ _ _ _ _ he
+        have hse := shapeE call e _ _ _ _ _ he
         -- the arm's variables without the pattern binding
         have hout : shape (armOut bind enve) = shape benv1 := by
           cases bind with
@@ -320,17 +342,17 @@ theorem shapeArms : (arms : Arms) → ∀ (benv1 : BEnv) (ts : STy) (sb : List B
           rw [shape_muxEnv _ _ _ (by rw [hout]; exact hs.symm), hout]
         split at h
         · split at h
-          · exact shapeArms rest benv1 ts sb _ st' h hmux
+          · exact shapeArms call rest benv1 ts sb _ st' h hmux
           · simp at h
-        · exact shapeArms rest benv1 ts sb _ st' h hmux
-theorem shapeSS : (ss : StmtList) → ∀ (benv : BEnv) (t : VTy) (bs : List Bool) (p : P) (benv' : BEnv),
-    bitStmts benv ss = some (t, bs, p, benv') → ∃ pre, shape benv' = pre ++ shape benv
+        · exact shapeArms call rest benv1 ts sb _ st' h hmux
+theorem shapeSS (call : CallFn) : (ss : StmtList) → ∀ (benv : BEnv) (t : VTy) (bs : List Bool) (p : P) (benv' : BEnv),
+    bitStmts call benv ss = some (t, bs, p, benv') → ∃ pre, shape benv' = pre ++ shape benv
   | .nil, benv, t, bs, p, benv', h => by
     simp only [bitStmts, Option.some.injEq, Prod.mk.injEq] at h; obtain ⟨_, _, _, rfl⟩ := h
     exact ⟨[], rfl⟩
   | .cons s .nil, benv, t, bs, p, benv', h => by
     simp only [bitStmts] at h
-    exact shapeS s _ _ _ _ _ h
+    exact shapeS call s _ _ _ _ _ h
   | .cons s (.cons s2 rest), benv, t, bs, p, benv', h => by
     simp only [bitStmts] at h
     split at h
@@ -338,20 +360,20 @@ theorem shapeSS : (ss : StmtList) → ∀ (benv : BEnv) (t : VTy) (bs : List Boo
       split at h
       · rename_i t2 bs2 p2 env2 hr
         simp only [Option.some.injEq, Prod.mk.injEq] at h; obtain ⟨_, _, _, rfl⟩ := h
-        obtain ⟨pre1, h1⟩ := shapeS s _ _ _ _ _ hs
-        obtain ⟨pre2, h2⟩ := shapeSS (.cons s2 rest) _ _ _ _ _ hr
+        obtain ⟨pre1, h1⟩ := shapeS call s _ _ _ _ _ hs
+        obtain ⟨pre2, h2⟩ := shapeSS call (.cons s2 rest) _ _ _ _ _ hr
         exact ⟨pre2 ++ pre1, by rw [h2, h1, List.append_assoc]⟩
       · simp at h
     · simp at h
-theorem shapeS : (s : Stmt) → ∀ (benv : BEnv) (t : VTy) (bs : List Bool) (p : P) (benv' : BEnv),
-    bitStmt benv s = some (t, bs, p, benv') → ∃ pre, shape benv' = pre ++ shape benv
+theorem shapeS (call : CallFn) : (s : Stmt) → ∀ (benv : BEnv) (t : VTy) (bs : List Bool) (p : P) (benv' : BEnv),
+    bitStmt call benv s = some (t, bs, p, benv') → ∃ pre, shape benv' = pre ++ shape benv
   | .let_ pat e, benv, t, bs, p, benv', h => by
     cases pat <;> simp only [bitStmt] at h
     case ident x =>
       split at h
       · rename_i t1 bs1 p1 env1 he
         simp only [Option.some.injEq, Prod.mk.injEq] at h; obtain ⟨_, _, _, rfl⟩ := h
-        exact ⟨[(x, t1)], by simp [shapeE e _ _ _ _ _ he]⟩
+        exact ⟨[(x, t1)], by simp [shapeE call e _ _ _ _ _ he]⟩
       · simp at h
     all_goals (simp at h)
   | .letMut x e, benv, t, bs, p, benv', h => by
@@ -359,7 +381,7 @@ theorem shapeS : (s : Stmt) → ∀ (benv : BEnv) (t : VTy) (bs : List Bool) (p 
     split at h
     · rename_i t1 bs1 p1 env1 he
       simp only [Option.some.injEq, Prod.mk.injEq] at h; obtain ⟨_, _, _, rfl⟩ := h
-      exact ⟨[(x, t1)], by simp [shapeE e _ _ _ _ _ he]⟩
+      exact ⟨[(x, t1)], by simp [shapeE call e _ _ _ _ _ he]⟩
     · simp at h
   | .assign x path e, benv, t, bs, p, benv', h => by
     cases path <;> simp only [bitStmt] at h
@@ -369,14 +391,14 @@ theorem shapeS : (s : Stmt) → ∀ (benv : BEnv) (t : VTy) (bs : List Bool) (p 
         split at h
         · split at h
           · simp only [Option.some.injEq, Prod.mk.injEq] at h; obtain ⟨_, _, _, rfl⟩ := h
-            exact ⟨[], by simp [shape_set, shapeE e _ _ _ _ _ he]⟩
+            exact ⟨[], by simp [shape_set, shapeE call e _ _ _ _ _ he]⟩
           · simp at h
         · simp at h
       · simp at h
     all_goals (simp at h)
   | .expr e, benv, t, bs, p, benv', h => by
     simp only [bitStmt] at h
-    exact ⟨[], by simp [shapeE e _ _ _ _ _ h]⟩
+    exact ⟨[], by simp [shapeE call e _ _ _ _ _ h]⟩
   | .for_ _ _ _, _, _, _, _, _, h => by simp [bitStmt] at h
   | .forJoin _ _ _ _, _, _, _, _, _, h => by simp [bitStmt] at h
 end
